@@ -308,6 +308,7 @@ func (p *c15) RunCase(ctx *runner.Ctx) runner.CaseResult {
 		p.batchCompositions(x, adapt.Adapters[ctx.Case-nseq*2], ctx)
 		p.malformedWhileFailing(x, adapt.Adapters[ctx.Case-nseq*2])
 		p.failureBetweenPages(x, adapt.Adapters[ctx.Case-nseq*2])
+		p.replayedTokens(x, adapt.Adapters[ctx.Case-nseq*2])
 	default:
 		idx := ctx.Case - nseq*2 - 2
 		r := mon.Rng(ctx.Seed, "C15", idx)
@@ -397,6 +398,48 @@ func (p *c15) failureBetweenPages(x *res, adapter string) {
 						x.viol("not-restored", kind+"/pager", fmt.Sprintf("[%s] after the failure was switched off the same walk gives class %s, %d items; before it gave %d", adapter, again.Class, len(again.Items), len(whole.Items)), wit)
 					}
 				}
+			}
+		}
+	}
+}
+
+// replayedTokens: TransactWriteItems is a data operation with a ClientRequestToken. A call that completed under a
+// token, repeated with the SAME token (same actions, other actions) while a failure is active, fails with the
+// configured error like a call with a fresh token or with none: nothing about an earlier call exempts a request
+// from the failing database. After the failure is switched off the same calls succeed again.
+func (p *c15) replayedTokens(x *res, adapter string) {
+	spec := mon.SpecHashOnly("tbl15t")
+	fails := []struct {
+		name string
+		on   adapt.Op
+		want string
+	}{{"internal_server", adapt.Op{Kind: adapt.OpEmulate, Fail: "internal_server"}, adapt.ClsInternal}, {"deprecated", adapt.Op{Kind: adapt.OpEmulate, Fail: "deprecated"}, adapt.ClsForced}, {"forceon", adapt.Op{Kind: adapt.OpForceOn}, adapt.ClsForced}}
+	first := adapt.Op{Kind: adapt.OpTransact, Token: "token-1", Table: spec.Name, Item: val.Item{"h": val.Str("t1")}}
+	replays := map[string]adapt.Op{
+		"same-token-same-actions":  first,
+		"same-token-other-actions": {Kind: adapt.OpTransact, Token: "token-1", Table: spec.Name, Item: val.Item{"h": val.Str("t2")}},
+		"fresh-token":              {Kind: adapt.OpTransact, Token: "token-2", Table: spec.Name, Item: val.Item{"h": val.Str("t1")}},
+		"no-token":                 {Kind: adapt.OpTransact, Table: spec.Name, Item: val.Item{"h": val.Str("t1")}},
+	}
+	for _, fl := range fails {
+		for name, rp := range replays {
+			cl, _, ds := freshClient(adapter, spec)
+			if ds != nil {
+				return
+			}
+			o0 := cl.Do(first)
+			cl.Do(fl.on)
+			o1 := cl.Do(rp)
+			x.r.Evals += 2
+			x.r.Counters["transactions_replayed_while_failing"]++
+			x.fp(true, "%s|replayed-token|%s|%s", adapter, fl.name, name)
+			wit := map[string]interface{}{"adapter": adapter, "failure": fl.name, "first": first, "first_outcome": o0, "replay": rp, "outcome": o1}
+			if o0.Class != adapt.ClsOK {
+				x.r.Counters["transactions_not_accepted"]++
+				continue
+			}
+			if o1.Class != fl.want {
+				x.viol("failure-class", "transact/"+name+"/"+fl.name, fmt.Sprintf("[%s] TransactWriteItems (%s) while %s is active: class %s (%s), want the configured error (%s)", adapter, name, fl.name, o1.Class, o1.Msg, fl.want), wit)
 			}
 		}
 	}
